@@ -1242,6 +1242,12 @@ class ExcAnalysis:
             d = self.abs._single_def(fn, e.id)
             if d is not None and isinstance(d, (ast.Attribute, ast.Name)):
                 return self.normalise(fn, d, depth + 1)
+            if d is None and fn.parent is not None and e.id not in self.cg.env(fn)._assign_sites and \
+                    e.id not in [a.arg for a in fn.params()]:
+                # a variable of the enclosing function read by a local helper (closure): its single definition there
+                d = self.abs._single_def(fn.parent, e.id)
+                if d is not None and isinstance(d, (ast.Attribute, ast.Name)):
+                    return self.normalise(fn.parent, d, depth + 1)
             return e
         if isinstance(e, ast.Attribute):
             return ast.Attribute(value=self.normalise(fn, e.value, depth + 1), attr=e.attr, ctx=ast.Load())
